@@ -3,7 +3,7 @@ META = {'level': 'other'}
 def groups(tier):
     n = 3 if tier == 'quick' else 4
     return [Group('escape.roundtrip', 'logjson', 'C37/escape.c', entry='h_escape', unwind=6 * n + 4, unwind_by={'daemon__escape_control_characters#0': n + 1, 'cxx_oss_put_u64': 24, 'cxx_strlen': 8},
-                  kind='bounded', backend=['sat', 'cadical'], timeout=900, checks=['--bounds-check', '--pointer-check'], defines=['CXX_FIXED_STORAGE', f'CXX_VEC_CAP={6 * n + 8}', f'N={n}'],
+                  kind='bounded', backend=['sat', 'cadical'], timeout=2400, checks=['--bounds-check', '--pointer-check'], defines=['CXX_FIXED_STORAGE', f'CXX_VEC_CAP={6 * n + 8}', f'N={n}'],
                   replay='escape', bound=f'strings of at most {n} bytes, every byte value in every position',
                   clause='escape_json / escape_control_characters: the escaped text has no control byte and no raw quote and decodes, as a JSON string body, '
                          'to exactly the logged bytes')]
